@@ -1074,6 +1074,9 @@ func Run(c *vh.Ctx) {
 		}
 	}()
 	if len(c.ReplayRaw) > 0 {
+		if r.replayChain(c.ReplayRaw) {
+			return
+		}
 		var cs Case
 		if err := json.Unmarshal(c.ReplayRaw, &cs); err != nil {
 			c.Note("bad replay: %v", err)
@@ -1257,6 +1260,9 @@ func Run(c *vh.Ctx) {
 		}
 		r.run(Case{"exc", h})
 	}
+
+	// chained parent:: calls over linear chains of up to 5 classes (complete)
+	r.runChains()
 
 	// 3. known stream: the recorded deviations must still be the recorded ones
 	knownCases := []Hier{
